@@ -153,6 +153,9 @@ fn cases_sd_alg_member(_rng: &mut Rng, sink: &mut dyn FnMut(J) -> bool) {
 fn cases_shapes(_rng: &mut Rng, sink: &mut dyn FnMut(J) -> bool) {
     let mut n = 0usize;
     for d in disclosure_shapes() {
+        if d.get(1) == Some(&json!("_sd_alg")) {
+            continue; // covered by c08.sd_alg_member
+        }
         let positions: Vec<(J, Vec<J>)> = vec![
             (base(json!({"_sd": ["#0"]})), vec![d.clone()]),
             (base(json!({"o": {"_sd": ["#0"], "p": 1}})), vec![d.clone()]),
@@ -175,7 +178,7 @@ fn cases_shapes(_rng: &mut Rng, sink: &mut dyn FnMut(J) -> bool) {
 }
 
 fn cases_random(rng: &mut Rng, sink: &mut dyn FnMut(J) -> bool) {
-    let shapes = disclosure_shapes();
+    let shapes: Vec<J> = disclosure_shapes().into_iter().filter(|d| d.get(1) != Some(&json!("_sd_alg"))).collect();
     let names = ["n0", "n1", "vis", "o", "arr", "_sd", "...", "p"];
     let mut n = 0usize;
     loop {
